@@ -1,1 +1,51 @@
-From VP Require Import Base.Tactics Coord.Model Coord.Props.
+From VP Require Import Base.Tactics Coord.Model Coord.Spec Coord.ProofsC33 Coord.Props.
+Open Scope N_scope.
+
+Check (C33_deploy_on_available_and_pinned :
+  forall c word spec ts c',
+    plan_deploy c word spec = (inr ts, c') ->
+    exists tss, ts = concat tss /\
+      Forall2 (fun p tsp =>
+                 map tname tsp = map (fun k => replica_name (pn p) k (N.max (preps p) 1)) (nseq (N.max (preps p) 1)) /\
+                 forall t, In t tsp ->
+                   avail_b c (tw t) = true /\ (forall a, paff p = Some a -> avail_b c a = true -> tw t = a))
+              spec tss).
+Print Assumptions C33_deploy_on_available_and_pinned.
+Check (C33_available_means :
+  forall c w, avail_b c w = true <->
+              exists wk, get (workers c) w = Some wk /\ wst wk = WReady /\ wrun wk < wmax wk).
+Print Assumptions C33_available_means.
+Check (C33_migration_plan_target_available :
+  forall c p g t m, plan_migrate c p g t = inr m -> mtgt m = t /\ avail_b c t = true).
+Print Assumptions C33_migration_plan_target_available.
+Check (C33_migration_target_available :
+  forall c p g t ok c', migrate c p g t ok = (c', inr true) -> avail_b c t = true).
+Print Assumptions C33_migration_target_available.
+Check (C33_failover_target_available :
+  forall c word w t, failover_target c word w = Some t -> avail_b c t = true /\ t <> w).
+Print Assumptions C33_failover_target_available.
+Check (C33_sweep_exact :
+  forall c w wk, get (workers c) w = Some wk ->
+    get (workers (fst (sweep c))) w =
+      Some (if wstatus_eqb (wst wk) WReady && Z.ltb (ctimeout c) (cnow c - whb wk) then w_set_status WUnhealthy wk else wk)).
+Print Assumptions C33_sweep_exact.
+Check (C33_sweep_reports_exactly :
+  forall c w wk, NoDup (map fst (workers c)) -> get (workers c) w = Some wk ->
+    (In w (snd (sweep c)) <-> wst wk = WReady /\ (ctimeout c < cnow c - whb wk)%Z)).
+Print Assumptions C33_sweep_reports_exactly.
+Check (C33_only_the_sweep_marks_unhealthy :
+  forall s o w,
+    (match o with OSweep | OSetStatus _ _ => False | _ => True end) ->
+    status_of (sc s) w = Some WReady ->
+    status_of (sc (fst (step s o))) w = Some WReady \/ status_of (sc (fst (step s o))) w = None).
+Print Assumptions C33_only_the_sweep_marks_unhealthy.
+Check (C33_heartbeat_recovers :
+  forall c w n wk, get (workers c) w = Some wk -> wst wk = WUnhealthy \/ wst wk = WReady ->
+    exists wk', get (workers (fst (heartbeat c w n))) w = Some wk' /\
+                wst wk' = WReady /\ whb wk' = cnow c /\ wrun wk' = n /\
+                (avail_b (fst (heartbeat c w n)) w = true <-> n < wmax wk)).
+Print Assumptions C33_heartbeat_recovers.
+Check (C33_sweep_boundary :
+  let s := run (init 3) [ORegister 1 4 10 0; ORegister 2 4 10 0; OAdvance 1; OHeartbeat 2 0; OAdvance 3] in
+  map (fun e => (fst e, wst (snd e))) (workers (fst (sweep (sc s)))) = [(1, WUnhealthy); (2, WReady)]).
+Print Assumptions C33_sweep_boundary.
